@@ -140,8 +140,8 @@ package types
 //@   ensures[base]  err == nil ==> op != nil && op.TransferAttributes != nil && taOK(op.TransferAttributes) && op.Payload != nil && payloadOK(op.Payload)
 //@   ensures[base]  op != nil ==> err == nil
 //@   ensures[base]  err == nil ==> fresh(op) && fresh(op.TransferAttributes)
-//@   ensures[C07,C01,C03,C18] ccIsIBC(packet) && id.ProtocolId == core.PROTOCOL_IBC && !ccForOrb(packet) ==> op == nil && err != nil && rootErr(err) == core.ErrNoOrbiterPacket
-//@   ensures[C01,C07,C03,C16,C18] err != nil && rootErr(err) == core.ErrNoOrbiterPacket ==> ccIsIBC(packet) && !ccForOrb(packet)
+//@   ensures[C07,C01,C02,C11,C03,C18] ccIsIBC(packet) && id.ProtocolId == core.PROTOCOL_IBC && !ccForOrb(packet) ==> op == nil && err != nil && rootErr(err) == core.ErrNoOrbiterPacket
+//@   ensures[C01,C02,C11,C07,C03,C16,C18] err != nil && rootErr(err) == core.ErrNoOrbiterPacket ==> ccIsIBC(packet) && !ccForOrb(packet)
 //@   ensures[C01,C02,C11,C16] err == nil ==> ccIsIBC(packet) && ccForOrb(packet) && prefixof(denomPrefix(ccIBC(packet).sourcePort, ccIBC(packet).sourceChannel), ccData(packet).Denom) &&
 //@                  tracePath(ccDenom(packet)) == "" && okInt(ccData(packet).Amount) &&
 //@                  op.TransferAttributes.destinationCoin.Denom == ccDenom(packet) && val(op.TransferAttributes.destinationCoin.Amount) == parseInt(ccData(packet).Amount) &&
@@ -179,15 +179,15 @@ package types
 //@   ensures[C01] err == nil ==> bal(bank, core.ModuleAddress, old(opDenom(packet))) == 0
 //@   ensures[C01] err == nil ==> forall d string :: d != old(opDenom(packet)) ==> bal(bank, core.ModuleAddress, d) <= bal(old(bank), core.ModuleAddress, d)
 //@   ensures[C02,C11] err == nil ==> dispatchEffect(old(bank), val(old(packet.TransferAttributes.destinationCoin.Amount)), old(opDenom(packet)), packet.Payload)
-//@   ensures[base] wrapped_n == old(wrapped_n) && wrapped_ret == old(wrapped_ret) && hook_n == old(hook_n) && hook_failed == old(hook_failed) && adapt_err == old(adapt_err)
+//@   ensures[base] wrapped_n == old(wrapped_n) && wrapped_ret == old(wrapped_ret) && hook_n == old(hook_n) && hook_failed == old(hook_failed) && adapt_err == old(adapt_err) && adapt_op == old(adapt_op) && wrapped_bank == old(wrapped_bank) && wrapped_bank0 == old(wrapped_bank0)
 
 // The adapter controller behind the adapter's router (implemented by the IBC adapter).
 //@ func (self AdapterController) ParsePacket(ccPacket) (result, err)
 //@   requires[base] ref(ccPacket) != 0
 //@   ensures[base] err == nil ==> result != nil && payloadFieldsOK(result.Payload) && !isnil(result.Coin.Amount)
 //@   ensures[base] err == nil ==> fresh(result)
-//@   ensures[C07,C01,C03,C18] ccIsIBC(ccPacket) && !ccForOrb(ccPacket) ==> err != nil && rootErr(err) == core.ErrNoOrbiterPacket
-//@   ensures[C01,C07,C03,C16,C18] err != nil && rootErr(err) == core.ErrNoOrbiterPacket ==> ccIsIBC(ccPacket) && !ccForOrb(ccPacket)
+//@   ensures[C07,C01,C02,C11,C03,C18] ccIsIBC(ccPacket) && !ccForOrb(ccPacket) ==> err != nil && rootErr(err) == core.ErrNoOrbiterPacket
+//@   ensures[C01,C02,C11,C07,C03,C16,C18] err != nil && rootErr(err) == core.ErrNoOrbiterPacket ==> ccIsIBC(ccPacket) && !ccForOrb(ccPacket)
 //@   ensures[C01,C02,C11,C16] err == nil ==> ccIsIBC(ccPacket) && ccForOrb(ccPacket) && prefixof(denomPrefix(ccIBC(ccPacket).sourcePort, ccIBC(ccPacket).sourceChannel), ccData(ccPacket).Denom) &&
 //@                  tracePath(ccDenom(ccPacket)) == "" && okInt(ccData(ccPacket).Amount) && result.Coin.Denom == ccDenom(ccPacket) && val(result.Coin.Amount) == parseInt(ccData(ccPacket).Amount)
 
@@ -207,4 +207,4 @@ package types
 //@   ensures[C01] err == nil ==> bal(bank, core.ModuleAddress, old(transferAttr.destinationCoin.Denom)) == 0
 //@   ensures[C01] err == nil ==> forall d string :: d != old(transferAttr.destinationCoin.Denom) ==> bal(bank, core.ModuleAddress, d) <= bal(old(bank), core.ModuleAddress, d)
 //@   ensures[C02,C11] err == nil ==> payloadOK(payload) && dispatchEffect(old(bank), val(old(transferAttr.destinationCoin.Amount)), old(transferAttr.destinationCoin.Denom), payload)
-//@   ensures[base] wrapped_n == old(wrapped_n) && wrapped_ret == old(wrapped_ret) && hook_n == old(hook_n) && hook_failed == old(hook_failed) && adapt_err == old(adapt_err)
+//@   ensures[base] wrapped_n == old(wrapped_n) && wrapped_ret == old(wrapped_ret) && hook_n == old(hook_n) && hook_failed == old(hook_failed) && adapt_err == old(adapt_err) && adapt_op == old(adapt_op) && wrapped_bank == old(wrapped_bank) && wrapped_bank0 == old(wrapped_bank0)
